@@ -21,6 +21,7 @@ class G:
         self.consts = ["C_WIDTH", "C_DEPTH", "c_zero"]
         self.types = ["std_logic", "std_logic_vector(7 downto 0)", "std_logic_vector(C_WIDTH-1 downto 0)", "integer", "natural", "boolean", "unsigned(3 downto 0)", "integer range 0 to 15", "t_state", "bit"]
         self.out = []
+        self.vars = []
 
     # ---- token helpers --------------------------------------------------------------
     def kw(self, w):
@@ -155,7 +156,8 @@ class G:
             self.signals += [n for n in names if "vector" not in " ".join(typ)][:1]
         elif r < 0.35:
             typ = self.subtype_ind()
-            ids, _ = self.idlist("v_", 0.25)
+            ids, vnames = self.idlist("v_", 0.25)
+            self.vars += vnames
             L = [self.kw("variable")] + ids + [":"] + typ + ([":="] + self.default(typ) if self.chance(0.35) else []) + [";"]
         elif r < 0.5:
             typ = self.subtype_ind()
@@ -226,8 +228,11 @@ class G:
         if not body:
             return t + [";"]
         t += [self.kw("is"), "\n"]
+        self.vars = []
         for _ in range(self.r.randint(0, 2)):
-            t += [self.kw("variable"), self.uid("v_"), ":", "integer", ":=", "0", ";", "\n"]
+            vn = self.uid("v_")
+            self.vars.append(vn)
+            t += [self.kw("variable"), vn, ":", "integer", ":=", "0", ";", "\n"]
         t += [self.kw("begin"), "\n"]
         old = self.signals
         self.signals = self.signals + ["x"]
@@ -236,6 +241,7 @@ class G:
         self.signals = old
         if isf:
             t += [self.kw("return")] + self.expr(1) + [";", "\n"]
+        self.vars = []
         t += [self.kw("end")] + ([self.kw("function" if isf else "procedure")] if self.chance(0.6) else []) + ([nm] if self.chance(0.5) else []) + [";"]
         return t
 
@@ -246,6 +252,9 @@ class G:
     def seq(self, depth, infunc=False, inloop=False):
         r = self.r.random()
         lab = [self.uid("lbl_"), ":"] if self.chance(0.12) else []
+        if self.vars and self.chance(0.2):
+            v = self.r.choice(self.vars)
+            return [v, ":=", v if self.chance(0.4) else self.r.choice(self.vars), self.r.choice(["+", "-", "and", "or"]), self.r.choice(["1", "c_zero", self.r.choice(self.vars)]), ";", "\n"]
         if r < 0.35 or depth > 3:
             if infunc:
                 return [self.uid("v_") if False else "x", ":="] + self.expr(1) + [";", "\n"]
@@ -310,6 +319,7 @@ class G:
             if self.chance(0.6):
                 t += [self.kw("is")]
             t += ["\n"]
+            self.vars = []
             for _ in range(self.r.choice([0, 0, 1, 2])):
                 t += self.decl("proc")
             t += [self.kw("begin"), "\n"]
@@ -317,6 +327,7 @@ class G:
                 t += self.seq(1)
             if not sens:
                 t += [self.kw("wait"), ";", "\n"]
+            self.vars = []
             return t + [self.kw("end"), self.kw("process")] + ([lbl[0]] if lbl and self.chance(0.5) else []) + [";", "\n", "\n"]
         if r < 0.45:
             lbl = [self.uid("asg_"), ":"] if self.chance(0.15) else []
